@@ -284,11 +284,26 @@ struct WkdRun {
         }
     }
 
+    // The precomputed product for list L as a deployment holds it: computed directly, or - every other time - kept from an
+    // earlier list and adjusted to L (one step from a neighbour list, or a chain through the empty list). The property makes
+    // the two interchangeable for everything that consumes a precomputed value.
+    void make_pre(Buf& pre, const std::vector<MAttr>& L) {
+        JAttrs ja(L, false); env.lib_calls++;
+        int how = (int) ((env.lib_calls + (uint64_t) env.step) % 4);
+        if (how == 0 || how == 2) { R.jv_wk_precompute(view, pre, sys.params, &ja.l); return; }
+        std::vector<MAttr> from = L;
+        if (!from.empty() && how == 1) { if (from.size() > 1 && (env.step & 1)) from.erase(from.begin() + (long) (from.size() / 2)); else from[0].id = Bn::mod(Bn::add(from[0].id, Bn(3)), K().two256); }
+        else { bool used[256] = {false}; for (auto& a : L) if (a.idx < 256) used[a.idx] = true; from.clear(); for (int i = sys.l - 1; i >= 0; i--) if (!used[i]) { from.push_back({(uint32_t) i, Bn(7), false}); break; } }   // how == 3 (or empty L): from a list with another slot
+        JAttrs jf(from, false); R.jv_wk_precompute(view, pre, sys.params, &jf.l); env.lib_calls++;
+        if (how == 3 && !from.empty()) { std::vector<MAttr> none; JAttrs jn(none, false); R.jv_wk_adjust_precomputed(view, pre, sys.params, &jf.l, &jn.l); R.jv_wk_adjust_precomputed(view, pre, sys.params, &jn.l, &ja.l); env.count("probe:precomputed_value_obtained_by_adjustment_chain"); }
+        else { R.jv_wk_adjust_precomputed(view, pre, sys.params, &jf.l, &ja.l); env.count("probe:precomputed_value_obtained_by_adjustment"); }
+    }
+
     void op_resample(const Op& op) {
         KeyM* pk = pick_key(op.arg(1)); if (!pk || pk->tainted) return;
         bool further = op.arg(2) != 0;
         std::vector<MAttr> L = list_of_pattern(pk->pat, (op.arg(0) & 1) != 0); JAttrs ja(L, false);
-        Buf pre(R.sz(JV_SZ_WK_PRE)); env.lib_calls++; R.jv_wk_precompute(view, pre, sys.params, &ja.l);
+        Buf pre(R.sz(JV_SZ_WK_PRE)); make_pre(pre, L);
         size_t pl = count_free(pk->pat);
         KeyM k = newkey(further ? pl : 0);
         std::vector<std::string> sf = trailing_faults(op, 0);
@@ -349,7 +364,7 @@ struct WkdRun {
         env.soft(w.c1(w.field<G1v>(JV_OK_WK_CT, c.ct, JV_F_CT_C)) == w.c1(w.g1mul(P, s)), "C11", "encrypt:C", "ciphertext C != (g3*prod h_i^a_i)^s for list " + list_str(L));
         // C14: the precomputed path is interchangeable (same stream => byte-identical ciphertext)
         if (op.arg(3)) {
-            Buf pre(R.sz(JV_SZ_WK_PRE)), ct2(R.sz(JV_SZ_WK_CT)); env.lib_calls++; R.jv_wk_precompute(view, pre, sys.params, &ja.l);
+            Buf pre(R.sz(JV_SZ_WK_PRE)), ct2(R.sz(JV_SZ_WK_CT)); make_pre(pre, L);
             call_begin(ss, &sf); R.jv_wk_encrypt_precomputed(view, ct2, c.msg.b, sys.params, pre, jv_rand_cb);
             std::vector<uint8_t> b1 = wk_marshal(R, view, JV_OK_WK_CT, c.ct, true), b2 = wk_marshal(R, view, JV_OK_WK_CT, ct2, true);
             env.soft(b1 == b2, "C14", "encrypt_precomputed:interchangeable", "encrypt and encrypt_precomputed with the same random stream give different ciphertexts for " + list_str(L));
@@ -418,7 +433,7 @@ struct WkdRun {
             env.soft(w.c2(w.field<G2v>(JV_OK_WK_SIG, sg.sig, JV_F_SIG_A1)) == w.c2(w.g2mul(sys.g, rs)), "C13", "sign:a1", "signature a1 != g^(rho+s)");
         }
         if (op.arg(3)) {   // C14: sign_precomputed interchangeable
-            Buf pre(R.sz(JV_SZ_WK_PRE)), sig2(R.sz(JV_SZ_WK_SIG)); env.lib_calls++; R.jv_wk_precompute(view, pre, sys.params, &ja.l);
+            Buf pre(R.sz(JV_SZ_WK_PRE)), sig2(R.sz(JV_SZ_WK_SIG)); make_pre(pre, L);
             call_begin(ss, &sf); R.jv_wk_sign_precomputed(view, sig2, sys.params, pk->sk, &ja.l, pre, m32, jv_rand_cb);
             env.soft(wk_marshal(R, view, JV_OK_WK_SIG, sg.sig, true) == wk_marshal(R, view, JV_OK_WK_SIG, sig2, true), "C14", "sign_precomputed:interchangeable", "sign and sign_precomputed with the same stream differ for " + list_str(L));
             env.count("probe:sign_vs_sign_precomputed_compared");
@@ -437,7 +452,7 @@ struct WkdRun {
         uint8_t m32[32]; msg.to_le(m32, 32); JAttrs ja(L, false);
         env.lib_calls += 3;
         int v1 = R.jv_wk_verify(view, sys.params, &ja.l, sig, m32);
-        Buf pre(R.sz(JV_SZ_WK_PRE)); R.jv_wk_precompute(view, pre, sys.params, &ja.l);
+        Buf pre(R.sz(JV_SZ_WK_PRE)); make_pre(pre, L);
         int v2 = R.jv_wk_verify_precomputed(view, sys.params, pre, sig, m32);
         env.soft(v1 == v2, "C14", "verify_precomputed:agrees", "verify and verify_precomputed disagree on " + what);
         return v1 != 0;
